@@ -4,7 +4,7 @@
 # observed API-level history must be accepted by the model (Corr/NetAdapterCorr.v, vm_compute) and every
 # Read/Write trace must replay through lb_read; an independent oracle runs on every scenario.
 import json, os, re
-from vlib import core, gen
+from vlib import core, gen, gosrc
 
 PROP = "C19"
 SIG_PINNED = "C19:undelivered-wrapper-pins-session-after-listener-close"
@@ -153,8 +153,8 @@ def source_frame_check():
     copy-write path only the send buffer.  Returns a list of violations (strings)."""
     bad = []
     try:
-        st = open(os.path.join(core.REPO, "stream.go")).read()
-        bf = open(os.path.join(core.REPO, "buffer.go")).read()
+        st = gosrc.read("stream.go")
+        bf = gosrc.read("buffer.go")
     except OSError as ex:
         return ["cannot read the source: %s" % ex]
     def sel(body, recv):
@@ -187,7 +187,7 @@ def listen_loop_shape():
     closed-test `atomic.LoadUint32(&l.closed) == 1` and the insert `l.sessions[session] = wg` sit in the same
     l.mu region.  Returns (kind, text): kind None = ok, "shape" = not recognised, "hard" = positively different."""
     try:
-        src = open(os.path.join(core.REPO, "net_listener.go")).read()
+        src = gosrc.read("net_listener.go")
     except OSError as ex:
         return "shape", "cannot read net_listener.go: %s" % ex
     body = func_body(src, "func (l *listener) listenLoop()")
